@@ -10,6 +10,7 @@ package simhook
 import (
 	crand "crypto/rand"
 	"fmt"
+	"io"
 	"sort"
 	"sync"
 	"sync/atomic"
@@ -204,4 +205,45 @@ func MapSeq[M ~map[K]V, K comparable, V any](m M) func(yield func(K) bool) {
 			}
 		}
 	}
+}
+
+
+// PipeReader / PipeWriter wrap the ends of an io.Pipe where they are handed to code
+// that only sees an interface: every operation that may have blocked in the pipe is
+// followed by Woke, so that a goroutine woken by its peer parks before it goes on.
+
+type pipeReader struct{ r *io.PipeReader }
+
+func (p pipeReader) Read(b []byte) (int, error) {
+	n, err := p.r.Read(b)
+	Woke()
+	return n, err
+}
+func (p pipeReader) Close() error                     { return p.r.Close() }
+func (p pipeReader) CloseWithError(err error) error   { return p.r.CloseWithError(err) }
+
+// PipeReader returns r wrapped (an io.ReadCloser with CloseWithError).
+func PipeReader(r *io.PipeReader) interface {
+	io.ReadCloser
+	CloseWithError(error) error
+} {
+	return pipeReader{r}
+}
+
+type pipeWriter struct{ w *io.PipeWriter }
+
+func (p pipeWriter) Write(b []byte) (int, error) {
+	n, err := p.w.Write(b)
+	Woke()
+	return n, err
+}
+func (p pipeWriter) Close() error                   { return p.w.Close() }
+func (p pipeWriter) CloseWithError(err error) error { return p.w.CloseWithError(err) }
+
+// PipeWriter returns w wrapped (an io.WriteCloser with CloseWithError).
+func PipeWriter(w *io.PipeWriter) interface {
+	io.WriteCloser
+	CloseWithError(error) error
+} {
+	return pipeWriter{w}
 }
